@@ -275,6 +275,17 @@ MInit == /\ case \in Cases
                        !.final = Final(case, [edges |-> BlockEdges(case) \cup E, attr |-> V0(case).attr], {}, rm, {})]
 MSpec == MInit /\ [][FindMissing /\ UNCHANGED case]_vars
 
+(* ---- the gate over multi-molecule topologies: molecule types c1, c2 (connected) and d1, d2 (disconnected), lists of 1-3 entries, counts 1-2 *)
+GateConn == [c1 |-> TRUE, c2 |-> TRUE, d1 |-> FALSE, d2 |-> FALSE]
+GateEntries == { [mol |-> t, count |-> k] : t \in DOMAIN GateConn, k \in 1..2 }
+GateTops == UNION { [1..n -> GateEntries] : n \in 1..3 }
+RECURSIVE ExpandTop(_)
+ExpandTop(top) == IF Len(top) = 0 THEN <<>> ELSE [j \in 1..top[1].count |-> GateConn[top[1].mol]] \o ExpandTop(Tail(top))
+GInit == case \in { [top |-> t] : t \in GateTops } /\ st = [pc |-> "gate"]
+GSpec == GInit /\ [][UNCHANGED vars]_vars
+GateIsExpected == IGateRefuses(ExpandTop(case.top)) = GateRefuses(ExpandTop(case.top))
+GateExport == PrintT(<<"CASE", ToJson([top |-> case.top, refuse |-> GateRefuses(ExpandTop(case.top))])>>)
+
 (* ---- the family of this run *)
 FamGs == CASE Fam = "A" -> GsA(0) [] Fam = "B" -> GsB(0) [] Fam = "C" -> GsC(0) [] Fam = "D" -> GsD(0) [] Fam = "E" -> GsE(0) [] Fam = "M" -> GsM(0) [] Fam = "F" -> GsF(0) [] Fam = "N" -> GsN(0) [] OTHER -> {}
 FamFFs == CASE Fam = "A" -> FFsA(0) [] Fam = "B" -> FFsB(0) [] Fam = "C" -> FFsC(0) [] Fam = "D" -> FFsD(0) [] Fam = "E" -> FFsE(0) [] Fam = "M" -> FFsM(0) [] Fam = "F" -> FFsF(0) [] Fam = "N" -> FFsN(0) [] OTHER -> {}
@@ -284,7 +295,7 @@ FamCases == CASE Fam \in {"A", "B", "C", "D"} -> {}
               [] Fam = "N" -> PlainF({g \in GsN(0) : g[1] <= 3}, FFsN(0))
               [] Fam = "devNoAtomResname" -> CasesDevNoAtomResname(0) [] Fam = "devOrderedPairs" -> CasesDevOrderedPairs(0)
               [] Fam = "E" -> PlainF(GsE(0), FFsE(0))      \* exported families are enumerated chunk by chunk, see XNext
-              [] Fam = "small" -> CasesSmall(0) [] Fam = "tiny" -> CasesTiny(0) [] Fam = "small4" -> CasesSmall4(0) [] Fam = "missing" -> CasesMissing(0) [] Fam = "missingS" -> Plain({g \in GN(2) : TRUE}, { << >> })
+              [] Fam = "small" -> CasesSmall(0) [] Fam = "tiny" -> CasesTiny(0) [] Fam = "small4" -> CasesSmall4(0) [] Fam = "gate" -> {} [] Fam = "missing" -> CasesMissing(0) [] Fam = "missingS" -> Plain({g \in GN(2) : TRUE}, { << >> })
               [] Fam = "devMono" -> CasesDevMono(0) [] Fam = "devOrder" -> CasesDevOrder(0) [] Fam = "devLinktype" -> CasesDevLinktype(0)
               [] Fam = "devFirstWins" -> CasesDevFirstWins(0) [] Fam = "devAmbig" -> CasesDevAmbig(0) [] Fam = "devNonEdge" -> CasesDevNonEdge(0)
               [] Fam = "devPattern" -> CasesDevPattern(0) [] Fam = "devKeepRemoved" -> CasesDevKeepRemoved(0) [] Fam = "devF13" -> CasesDevF13(0)
